@@ -253,6 +253,9 @@ SUBCHECKS = {
                                note='redefinitions with identical name pattern, sibling rules sharing a prefix, rules referenced twice'),
     'schemas-typed-twins': SubCheck(run_case, strategy=lambda tier: _case('twins'), examples={'quick': 400, 'thorough': 8000},
                                     note='family-mode schemas whose literals a / 32=a / 33=a are equal in value and differ only in component type'),
+    'schemas-templated': SubCheck(run_case, strategy=lambda tier: st.fixed_dictionaries({
+        'schema': G.templated_schema(), 'style': st.integers(0, 5), 'moves': st.just([])}),
+        examples={'quick': 200, 'thorough': 4000}, note='see C12'),
     'schemas-many-patterns': SubCheck(run_case, strategy=lambda tier: _case('many'), examples={'quick': 250, 'thorough': 5000},
                                       note='14 pattern names: pattern numbers reach two digits'),
 }
